@@ -18,6 +18,8 @@ class FileBackups:
 
     # Private attributes:
     #
+    # set<str> _absent - The filenames passed to record_absent since the last
+    #     call to restore_all().
     # list<tuple<str, str>> _backups - The backup files. Each pair consists of
     #     the filename of the file we backed up and the filename where we're
     #     storing its backup.
@@ -30,6 +32,7 @@ class FileBackups:
 
     def __init__(self):
         self._backups = []
+        self._absent = set()
         self._next_backup_index = 0
         self._temp_dir = None
         self._lock = threading.Lock()
@@ -42,6 +45,7 @@ class FileBackups:
         shutil.rmtree(
             self._temp_dir, False, self._handle_remove_temp_dir_error)
         self._backups.clear()
+        self._absent.clear()
         self._next_backup_index = 0
         self._temp_dir = None
 
@@ -89,6 +93,25 @@ class FileBackups:
             self._backups.append((filename, backup_filename))
         return True
 
+    def record_absent(self, filename):
+        """Record that there was no regular file with the specified filename.
+
+        This is the counterpart of ``back_up_and_remove`` for a file we
+        are about to write that does not exist, so there is nothing to
+        back up.
+        """
+        with self._lock:
+            self._absent.add(filename)
+
+    def was_absent(self, filename):
+        """Return whether ``record_absent(filename)`` was called.
+
+        This only pertains to calls since the last ``restore_all()``
+        call.
+        """
+        with self._lock:
+            return filename in self._absent
+
     def restore_all(self):
         """Restore all files backed up since the last ``restore_all()`` call.
 
@@ -100,6 +123,7 @@ class FileBackups:
         with self._lock:
             backups = self._backups
             self._backups = []
+            self._absent = set()
 
         for filename, backup_filename in backups:
             if os.path.isdir(filename):
